@@ -7,3 +7,4 @@ import TradingVerif.Props.C17
 #print axioms TV.valid_action_request
 #print axioms TV.cash_entry_ignored
 #print axioms TV.denote_spec
+#print axioms TV.in_space_action_executed
